@@ -124,7 +124,7 @@ func (c *Ctx) lineTypes(root *ssa.Function) (sent, expected map[string]string, d
 			if idx, ok := lineSenders[id]; ok {
 				arg := ci.Common().Args[idx]
 				if s, ok := constString(arg); ok {
-					sent[s] = fname
+					setMin(sent, s, fname)
 				} else if _, isP := strip(arg).(*ssa.Parameter); !isP {
 					dynamic = append(dynamic, fname+" sends a non-constant type at "+c.ipos(in))
 				}
@@ -132,7 +132,7 @@ func (c *Ctx) lineTypes(root *ssa.Function) (sent, expected map[string]string, d
 			if idx, ok := lineReceivers[id]; ok {
 				arg := ci.Common().Args[idx]
 				if s, ok := constString(arg); ok {
-					expected[s] = fname
+					setMin(expected, s, fname)
 				} else if _, isP := strip(arg).(*ssa.Parameter); !isP {
 					dynamic = append(dynamic, fname+" expects a non-constant type at "+c.ipos(in))
 				}
@@ -141,7 +141,7 @@ func (c *Ctx) lineTypes(root *ssa.Function) (sent, expected map[string]string, d
 			if id == "fmt.Sprintf" {
 				if fm, ok := constString(ci.Common().Args[0]); ok && strings.HasPrefix(fm, "#") && !strings.HasPrefix(fm, "#%s") {
 					if k := strings.Index(fm, ":"); k > 1 {
-						sent[fm[1:k]] = fname
+						setMin(sent, fm[1:k], fname)
 					}
 				}
 			}
@@ -153,11 +153,18 @@ func (c *Ctx) lineTypes(root *ssa.Function) (sent, expected map[string]string, d
 				return
 			}
 			if s, ok := constString(cv.X); ok && strings.HasPrefix(s, "#") && strings.HasSuffix(s, ":") && len(s) > 2 {
-				sent[s[1:len(s)-1]] = fname
+				setMin(sent, s[1:len(s)-1], fname)
 			}
 		})
 	}
 	return
+}
+
+// setMin keeps the lexicographically smallest origin so that evidence text does not depend on map order.
+func setMin(m map[string]string, k, v string) {
+	if old, ok := m[k]; !ok || v < old {
+		m[k] = v
+	}
 }
 
 func keys(m map[string]string) []string {
